@@ -476,6 +476,20 @@ func (w *CliWorld) onServerDatagram(d *Dgram) {
 	if do == "drop" {
 		return
 	}
+	if do == "stranger" {
+		// somebody else who has seen the request answers it first, from an address of his own
+		// (transactions match by identifier); the server's answer follows
+		do = "ok"
+		if !w.stream {
+			if raw := w.buildResponse(msg, method, do, now); raw != nil {
+				w.K.Stats.Probe("srv_stranger_response")
+				w.Net.SendUDP(mustUDPAddr("10.0.3.9:7777"), d.From, raw)
+			}
+			if delay < 100*ms {
+				delay = 100 * ms
+			}
+		}
+	}
 	copies := 1
 	if do == "dup" {
 		copies = 2
